@@ -63,7 +63,7 @@ PT_ASSUME = [
     "PageTables.tla states the intended meaning of the Mapper/Translate/CleanUp calls (written from the trait documentation and the property text); Arch bit layout of entries as in the SDM/APM",
     "design check: TLC explores every reachable hierarchy of a small universe (MC_PT_*.cfg) - all histories within it, unbounded length; the real crate is driven on seeded random histories over the large universe (all 512 indices, frames up to 2^52) and every call is validated",
     "user obligations of the unsafe API are respected by the driver (aligned frames, leaf/parent flags contain PRESENT, parent flags without HUGE_PAGE, no use of bit 12 as a flag, pages outside the recursive slot)",
-    "mapper kinds in this run: MappedPageTable (arbitrary frame-to-pointer map over a memfd arena) and OffsetPageTable (several lower-half offsets incl. 0)",
+    "mapper kinds in this run: MappedPageTable (arbitrary frame-to-pointer map over a memfd arena), OffsetPageTable (several lower-half offsets incl. 0) and RecursivePageTable (recursive indices < 256 whose 512 GiB region is free in the harness process; its recursive addresses are resolved by a software MMU that walks the simulated tables from the emulated CR3)",
     "TLC, CommunityModules and the harness's snapshot/diff of simulated physical memory are trusted",
 ]
 
@@ -84,7 +84,7 @@ def pt_replay_lines(unknown, _lines):
     return out
 
 
-def pt_plan(mix, n_quick, n_thorough, rule, design_quick, design_thorough, kinds="mapped,offset"):
+def pt_plan(mix, n_quick, n_thorough, rule, design_quick, design_thorough, kinds="mapped,offset,recursive"):
     def mk(tier, seed):
         design = [{"module": "MC_PT", "cfg": c, "workers": 12, "timeout": 900} for c in design_quick]
         if tier == "thorough":
@@ -177,3 +177,33 @@ PLANS.update({
                     "tlb::flush on the canonical lattice + random; flush_all / MapperFlushAll::flush_all with CR3 contents incl. PCID bits; MapperFlush::flush for the 3 sizes; Pcid::new for all 65536 u16; flush_pcid for 4 kinds x boundary PCIDs (thorough: all 4096) x lattice addresses; InvlpgbFlushBuilder over 4KiB/2MiB ranges (empty, 1 page, multiples of count_max +-1, abutting the gap, spanning the gap, upper half, near the top) x count_max in {0,1,2,3,7,8,255,4096,65535,random} x pcid/asid/global/final/nested combinations: every trapped invlpg/invpcid/invlpgb/tlbsync/mov-cr3 operand is decoded by the specification; plus a page-table run whose every successful call must return a token naming the argument page; distinct = distinct (operation, arguments)",
                     extra_runs=(c11_pt_run,)),
 })
+
+
+def c20_plan(tier, seed):
+    n = 4000 if tier == "quick" else 60000
+    runs = [
+        {"name": "rec_pages_%d" % seed, "prof": "dev", "trace_module": "Trace_Addr",
+         "args": ["addr", "--prop", "C20", "--seed", str(seed), "--n", str(n)]},
+        {"name": "rec_pages_%d" % seed, "prof": "rel", "trace_module": "Trace_Addr",
+         "args": ["addr", "--prop", "C20", "--seed", str(seed + 1), "--n", str(n)]},
+        {"name": "rptnew_%d" % seed, "prof": "dev", "trace_module": "Trace_PT",
+         "args": ["rptnew", "--seed", str(seed), "--n", str(n)]},
+        {"name": "pt_rec_%d" % seed, "prof": "dev", "trace_module": "Trace_PT",
+         "args": ["pt", "--prop", "default", "--mode", "recursive", "--seed", str(seed + 3), "--n", str(n)],
+         "vtimeout": 3600},
+    ]
+    if tier == "thorough":
+        runs.append({"name": "pt_rec_rel_%d" % seed, "prof": "rel", "trace_module": "Trace_PT",
+                     "args": ["pt", "--prop", "errors", "--mode", "recursive", "--seed", str(seed + 9), "--n", str(n)],
+                     "vtimeout": 3600})
+    design = [{"module": "MC_Addr", "cfg": "MC_Addr_8_C20.cfg", "workers": 8},
+              {"module": "MC_PT", "cfg": "MC_PT_rec.cfg", "workers": 12, "timeout": 900}]
+    if tier == "thorough":
+        design.append({"module": "MC_Addr", "cfg": "MC_Addr_12_C20.cfg", "workers": 16, "timeout": 7200, "xmx": "24g"})
+    return {"design": design, "runs": runs, "trace_module": "Trace_PT", "level": "model_checking",
+            "rule": "(i) RecursivePageTable::new on table references placed (mmap) at recursive addresses and at near-recursive ones (each of the four index positions differing) for free recursive indices < 256, x root-register contents (the table's frame, other frames, flag/PCID bits) x slot contents (right frame present / not present / huge, other frame, present bit only, zero) with decoy slots; (ii) every recursive-region page touched by the real RecursivePageTable during random mapper histories (software-MMU log) must be one of {root, RecP3, RecP2, RecP1} of the call's page and reach the frame the specification's hardware walk reaches; (iii) hook H3: computed table pages for all 512 recursive indices x lattice pages x 3 sizes; distinct = distinct (operation, arguments)",
+            "assumptions": PT_ASSUME + ["recursive indices >= 256 cannot be mapped in a user process: they are covered by (iii) only (pure address computation through hook H3)"],
+            "replay_lines": pt_replay_lines}
+
+
+PLANS["C20"] = c20_plan
